@@ -20,7 +20,7 @@ RULE = ("E1: (a) 9 schemes x 28 hosts x 9 ports x {plain, userinfo, fragment} wi
         "lists of length <= 2 over a 23-segment alphabet (reserved characters, empty, dots, control characters below U+0010 followed by a hex digit, DEL, non-ASCII up to astral planes, literal percent text), given "
         "percent-encoded in URI text and raw in options, for three host kinds; (b2) sub-delims, ':' and '@' standing unescaped in path segments and query items; the "
         "destination (scheme, host, port) of every accepted authority; (c) verbatim bad escapes; (d) every string of length <= 3 (5 in the thorough tier) "
-        "over {c o a p : / ? # @ [ ] % .} alone and behind 'coap:', 'coap://', 'coap://h', 'coap://h:', 'coaps+ws://[', 'coap://][', 'coap://@[', 'coap://[::1]'; (e) host/port split-join pairs. "
+        "over {c o a p : / ? # @ [ ] % .} alone and behind 'coap:', 'coap://', 'coap://h', 'coap://h:', 'coaps+ws://[', 'coap://][', 'coap://@[', 'coap://[::1]'; (e) host/port split-join pairs; (f) composition with Uri-Host / Uri-Port options over 8 destinations. "
         "distinct = distinct (family, outcome class, shape)")
 ASSUMPTIONS = [
     "incomplete percent sequences ('%zz') may be rejected or passed through literally (RFC 3986 makes them invalid; the library documents tolerance)",
@@ -289,6 +289,51 @@ def check_options(res, scheme, hostinfo, path, query, case):
     res.outcomes.add(("options", "roundtrip"))
 
 
+def fam_option_authority(res):
+    """Section 6.5 with Uri-Host / Uri-Port options present: the composed URI names host = Uri-Host (else the destination's host),
+    port = Uri-Port (else the destination's port) - IP literals in brackets - and decomposes to that same authority."""
+    for scheme in ("coap", "coaps", "coap+tcp"):
+        for hostinfo in ("[2001:db8::1]", "[2001:db8::1]:61616", "[::ffff:1.2.3.4]:5683", "[fe80::1%eth0]:5683", "10.0.0.7", "10.0.0.7:61616", "example.com", "example.com:5684"):
+            for uri_host in (None, "other.example", "2001:db8::2", "192.0.2.9"):
+                for uri_port in (None, 5683, 5684, 61616):
+                    for path in ((), ("a", "b")):
+                        res.evaluations += 1
+                        case = {"family": "option-authority", "scheme": scheme, "hostinfo": hostinfo, "uri_host": uri_host, "uri_port": uri_port, "path": path}
+                        m = Message(code=GET)
+                        m.remote = UndecidedRemote(scheme, hostinfo)
+                        if uri_host is not None:
+                            m.opt.uri_host = uri_host
+                        if uri_port is not None:
+                            m.opt.uri_port = uri_port
+                        m.opt.uri_path = list(path)
+                        k, uri = outcome_of(lambda: m.get_request_uri())
+                        if k != "ok":
+                            res.violate(Violation("compose-fails", "a URI", core.exc_desc(uri) if k == "other" else uri, "message.py:get_request_uri", case, key="oa-compose"))
+                            continue
+                        dhost, dport = hostportsplit(hostinfo)
+                        want_host = (uri_host or dhost).lower()
+                        want_port = uri_port or dport
+                        k2, m2 = outcome_of(lambda: decompose(uri))
+                        if k2 != "ok":
+                            res.violate(Violation("options-roundtrip", {"host": want_host, "port": want_port}, {"uri": uri, "got": str(m2)},
+                                                  "message.py:get_request_uri", case, key="oa-undecomposable"))
+                            continue
+                        got = norm_hostinfo(m2.remote.hostinfo) if isinstance(m2.remote, UndecidedRemote) else None
+                        ghost = (m2.opt.uri_host or (got[0] if isinstance(got, tuple) else None))
+                        gport = got[1] if isinstance(got, tuple) else None
+                        default = DEFAULT_PORT[scheme]
+                        ok = ghost is not None and _same_host(ghost, want_host) and (gport == want_port or {gport, want_port} == {None, default}) \
+                            and tuple(m2.opt.uri_path) == path and m2.remote.scheme == scheme
+                        if not ok:
+                            res.violate(Violation("options-roundtrip", {"scheme": scheme, "host": want_host, "port": want_port, "path": path},
+                                                  {"uri": uri, "host": ghost, "port": gport, "path": tuple(m2.opt.uri_path)}, "message.py:get_request_uri", case,
+                                                  key="oa:" + ("literal" if ":" in want_host or want_host[0].isdigit() else "name")))
+                            continue
+                        res.traces += 1
+                        res.signatures.add(("option-authority", ":" in want_host, uri_port is None, dport is None))
+    res.outcomes.add(("option-authority", "done"))
+
+
 def fam_badescapes(res):
     for where in ("path", "query", "host"):
         for esc, expect in (("%ff", "reject"), ("%C3", "reject"), ("%zz", "either"), ("%", "either"), ("%4", "either"), ("%e2%82%ac", "ok")):
@@ -353,6 +398,7 @@ def job(arg):
     else:
         fam_badescapes(res)
         fam_hostport(res)
+        fam_option_authority(res)
     return res
 
 
@@ -377,6 +423,8 @@ def replay(case, scenario, seed):
         print("     outcome:", kind, val if kind != "ok" else view(val))
     elif case.get("family") == "hostport":
         fam_hostport(res)
+    elif case.get("family") == "option-authority":
+        fam_option_authority(res)
     else:
         check_options(res, "coap", case["host"], tuple(case["path"]), tuple(case["query"]), case)
     return [v for v, n in res.violations.values()]
